@@ -122,7 +122,34 @@ def _shard(args):
     return n_ok, out
 
 
+def _history_child(seq):
+    """payloads for a sequence of accelerators in ONE process: each must equal the pinned framing (no state may leak)."""
+    probs = []
+    for i, acc in enumerate(seq):
+        for entry in ("api", "internal"):
+            p = check_case(dict(acc=acc, n=5 + i, pattern="counter", entry=entry, salt=i))
+            if p:
+                probs.append("after %s: %s/%s: %s" % (list(seq[:i]), acc, entry, p[0]))
+    return probs
+
+
+def _history_shard(seqs):
+    from ..isolate import run_forked
+
+    core.bind_repo(need_codec=False)
+    out = []
+    for seq in seqs:
+        res, _ = run_forked(_history_child, (seq,), timeout=60, capture=True)
+        if res[0] != "ok":
+            out.append((seq, ["history child failed: %s" % (res[:3],)]))
+        elif res[1]:
+            out.append((seq, res[1]))
+    return len(seqs), out
+
+
 def replay(ctx, case):
+    if "seq" in case:
+        return _history_child(case["seq"])
     return check_case(case)
 
 
@@ -150,6 +177,19 @@ def run(ctx):
     for acc, lens, _ in shards:
         for n in lens:
             distinct.add((acc, n))
+    # history space: every sequence of accelerators up to depth d in one process (fresh forked process per sequence)
+    import itertools
+
+    depth = 3 if ctx.tier == "quick" else 4
+    seqs = [list(s) for d in range(2, depth + 1) for s in itertools.product(ACCS, repeat=d)]
+    hshards = [seqs[i:i + 16] for i in range(0, len(seqs), 16)]
+    nh = 0
+    for n, bad in pmap(_history_shard, hshards):
+        nh += n
+        for seq, probs in bad:
+            # shortest failing suffix pair identifies the failure
+            ctx.violation("history|%s" % ">".join(seq[-2:]) + "|" + probs[0].split(": ", 1)[-1][:50], "; ".join(probs[:3]), dict(seq=seq))
+    evals += nh
     # net part: every command stream tensor of compiled networks is checked by the sweep (see C06/C02 drivers)
     cov = dict(
         evaluations=evals,
@@ -158,7 +198,8 @@ def run(ctx):
              "all are non-trivial (each length lands on a different NOP count / length-field split)" % (maxlen, big),
         samples=[dict(acc="ethos-u55-128", n=5, payload=check_payload_hex("ethos-u55-128", 5))],
         exhaustive=True,
-        bound="lengths 0..%d complete; beyond that only the listed boundary lengths" % maxlen,
+        histories=nh,
+        bound="lengths 0..%d complete; beyond that only the listed boundary lengths; accelerator call histories complete to depth %d" % (maxlen, depth),
     )
     return ctx.finish("exploration", cov, ["pinned framing table in vfw/npu/isa.py (config/id word layout, action tags) is the hardware/driver truth"])
 
